@@ -364,6 +364,9 @@ E2E = [
     (dict(x=(0, 3), y=(0, 3), z=(0, 7), c='bool'), r"(y' = x) /\ (z' >= 0) /\ (c' \/ ~ c')", ["y'", "z'", "c'"]),
     (dict(x=(0, 2), y=(0, 2), z=(-2, 1)), "y' # x", ["y'", "z'"]),
     (dict(x=(0, 1), y=(0, 1), b='bool'), 'TRUE', ["y'", "b'"]),
+    # bitfields of more than 10 bits (bit names x_10, x_11 sort before x_2 as strings)
+    (dict(x=(0, 2047), y=(0, 2047), b='bool'), r"(y' = x) /\ (b' <=> (x >= 1024))", ["y'", "b'"]),
+    (dict(x=(-2000, 2000), y=(-2048, 2047)), "y' = x", ["y'"]),
 ]
 
 
@@ -412,9 +415,35 @@ def e2e_program(idx, backend):
                 L, H = den.limits(v)
                 doms.append(list(range(L, H + 1)))
         t = aut.vars
-        for vals in itertools.product(*doms):
+        total = 1
+        for d_ in doms:
+            total *= len(d_)
+        if total <= 5000:
+            all_states = itertools.product(*doms)
+        else:
+            # large domains: corners, powers of two and a seeded sample
+            import random as _random
+            rnd_ = _random.Random(idx)
+            picks = list()
+            for d_ in doms:
+                c_ = {d_[0], d_[-1], d_[len(d_) // 2]} | {v for v in d_ if isinstance(v, int) and not isinstance(v, bool) and (abs(v) & (abs(v) - 1)) == 0}
+                picks.append(sorted(c_, key=repr)[:16])
+            all_states = list(itertools.islice(itertools.product(*picks), 400))
+            all_states += [tuple(rnd_.choice(d_) for d_ in doms) for _ in range(300)]
+        import logging as _logging
+        glog = _logging.getLogger('generated_by_ovc')
+        for vals in all_states:
             n += 1
             state = dict(zip(ins, vals))
+            # the generated module has its own logger: every third state runs with it enabled at DEBUG
+            dbg = (n % 3 == 0)
+            old_disable = _logging.root.manager.disable
+            if dbg:
+                _logging.disable(_logging.NOTSET)
+                glog.setLevel(_logging.DEBUG)
+                glog.propagate = False
+                if not glog.handlers:
+                    glog.addHandler(_logging.NullHandler())
             sub = list()
             for v, val in state.items():
                 if decl[v] == 'bool':
@@ -428,8 +457,12 @@ def e2e_program(idx, backend):
             except Exception as e:
                 if len(fails) < 4:
                     fails.append(dict(name='generated step() runs on every state of representable values (negative integers and Booleans included)',
-                                      state=str(state), error=repr(e)))
+                                      state=str(state), error=repr(e), generated_module_logger='DEBUG' if dbg else 'default'))
                 continue
+            finally:
+                if dbg:
+                    glog.setLevel(_logging.NOTSET)
+                    _logging.disable(old_disable)
             if not solvable:
                 continue
             ok = set(out) == set(out_vars)
